@@ -3,7 +3,7 @@
 #   evidence/*: keep ours;  seeded/<ID>/ clashes: keep ours, store theirs as seeded/<PID>_self_<tag>/
 set -u
 WS=$1; B=ws-$WS
-cd /verif; git add -A; git commit -qm "wip before merge" 2>/dev/null
+cd /verif; if ! git diff --name-only --diff-filter=U | grep -q .; then git add -A; git commit -qm "wip before merge" 2>/dev/null; fi
 if git diff --name-only --diff-filter=U | grep -q .; then echo "(continuing a merge in progress)"; else git merge --no-edit $B > /tmp/merge_$WS.log 2>&1; fi
 for f in $(git diff --name-only --diff-filter=U); do
   case $f in
